@@ -972,6 +972,9 @@ func main() {
 	// --- source text of the pure wallet selection / fee / split functions (agent "select", C18) ---
 	emitSelectFacts(w, walletP, cashuP, mintP)
 
+	// --- spending conditions (C12/C13): pinned bodies of the functions Model.Spend mirrors ---
+	emitSpendFacts(w, nut11P, nut14P, mintP)
+
 	w("\nend Gonuts.Gen\n")
 
 	if outPath == "" {
@@ -1108,4 +1111,66 @@ func emitSelectFacts(w func(string, ...any), walletP, cashuP, mintP *pkg) {
 	// createSwapRequest (Receive path) uses the same fee / split helpers
 	emit("stmts_createSwapRequest_amounts", varStatements(findFunc(walletP, "Wallet", "createSwapRequest"),
 		map[string]bool{"fees": true, "split": true, "proofs": true}, map[string]bool{"feesForProofs": true, "w.splitWalletTarget": true}))
+}
+
+// ---- spending conditions (C12, C13) ------------------------------------------------------------
+// Model.Spend mirrors a dozen small functions line by line.  Besides constants and skeletons, the
+// tie pins their BODIES: each body is printed by go/printer without comments, one trimmed non-empty
+// line per list element.  Tie/Spend.lean states the expected text; any edit of these functions
+// breaks the tie and forces the model to be re-read against the source.
+
+func bodyLines(fd *ast.FuncDecl) []string {
+	if fd == nil || fd.Body == nil {
+		return []string{"<missing>"}
+	}
+	var buf bytes.Buffer
+	cfg := printer.Config{Mode: printer.RawFormat, Tabwidth: 1}
+	if err := cfg.Fprint(&buf, fset, fd.Body); err != nil {
+		return []string{"<print error: " + err.Error() + ">"}
+	}
+	var out []string
+	for _, l := range strings.Split(buf.String(), "\n") {
+		l = strings.Join(strings.Fields(l), " ")
+		if l != "" {
+			out = append(out, l)
+		}
+	}
+	return out
+}
+
+func emitSpendFacts(w func(string, ...any), nut11P, nut14P, mintP *pkg) {
+	w("\n/-! ## spending conditions: bodies of the functions mirrored by Model.Spend (go/printer, comments stripped) -/\n")
+	emit := func(lean string, fd *ast.FuncDecl) {
+		w("def %s : List String := %s\n", lean, leanStrList(bodyLines(fd)))
+	}
+	for _, fn := range []string{"ParseP2PKTags", "PublicKeys", "ProofsSigAll", "IsSigAll", "DuplicateSignatures", "HasValidSignatures",
+		"VerifyP2PKLockedProof", "AddSignatureToInputs", "AddSignatureToOutputs"} {
+		emit("body_nut11_"+fn, findFunc(nut11P, "", fn))
+	}
+	for _, fn := range []string{"VerifyHTLCProof", "AddWitnessHTLC", "AddWitnessHTLCToOutputs"} {
+		emit("body_nut14_"+fn, findFunc(nut14P, "", fn))
+	}
+	emit("body_mint_verifyBlindedMessages", findFunc(mintP, "", "verifyBlindedMessages"))
+	// what the two output-signing helpers hash, and what they hex-decode
+	w("def args_p2pkOutputsHash : List (List String) := [")
+	for i, r := range callArgs(findFunc(nut11P, "", "AddSignatureToOutputs"), "sha256.Sum256") {
+		if i > 0 {
+			w(", ")
+		}
+		w("%s", leanStrList(r))
+	}
+	w("]\n")
+	for _, x := range []struct {
+		lean string
+		fd   *ast.FuncDecl
+	}{{"args_p2pkOutputsDecode", findFunc(nut11P, "", "AddSignatureToOutputs")}, {"args_htlcOutputsDecode", findFunc(nut14P, "", "AddWitnessHTLCToOutputs")}} {
+		w("def %s : List (List String) := [", x.lean)
+		for i, r := range callArgs(x.fd, "hex.DecodeString") {
+			if i > 0 {
+				w(", ")
+			}
+			w("%s", leanStrList(r))
+		}
+		w("]\n")
+	}
 }
